@@ -328,7 +328,7 @@ pub enum Got {
     CallError(String),
 }
 
-fn compile(rt: &Runtime<NoCtx>, src: &str) -> Result<Package<NoCtx>, Got> {
+pub fn compile(rt: &Runtime<NoCtx>, src: &str) -> Result<Package<NoCtx>, Got> {
     match host::compile(rt, src) {
         Ok(p) => Ok(p),
         Err(host::CompileFail::Report(r)) => {
